@@ -83,6 +83,11 @@ func (t *Teamserver) LinkRemove(ParentAgent *agent.Agent, LinkAgent *agent.Agent
 	LinkAgent.Active = false
 	LinkAgent.Reason = "Disconnected"
 
+	// the child is listed among the parent's links exactly when that parent is its parent
+	if LinkAgent.Pivots.Parent == ParentAgent {
+		LinkAgent.Pivots.Parent = nil
+	}
+
 	if UpdateLinks {
 		for i := range ParentAgent.Pivots.Links {
 			if ParentAgent.Pivots.Links[i].NameID == LinkAgent.NameID {
